@@ -123,13 +123,15 @@ func (c *Int) Ident() string {
 	if c.Typ.BitSize == 1 {
 		// "true"
 		// "false"
-		switch x := c.X.Int64(); x {
-		case 0:
-			return "false"
-		case 1:
-			return "true"
-		default:
-			panic(fmt.Errorf("invalid integer value of boolean type; expected 0 or 1, got %d", x))
+		// Any other value (e.g. `i1 -1`, the signed spelling of true) is output
+		// as an integer literal below.
+		if c.X.IsInt64() {
+			switch x := c.X.Int64(); x {
+			case 0:
+				return "false"
+			case 1:
+				return "true"
+			}
 		}
 	}
 	// Output x in hexadecimal notation if x is positive, greater than or equal
